@@ -27,7 +27,7 @@ for d in sorted(os.listdir(V+'/seeded')):
         for x in readme.splitlines():
             if re.search(r'(?i)needs|trigger|manifest|only (shows|when)|requires',x):
                 needs=x.strip()[:400]; break
-    rnd=3 if var.startswith('r3') else 2 if var.startswith('r2') else 1
+    m_=re.match(r'r(\d+)',var); rnd=int(m_.group(1)) if m_ else 1
     meta={"property":pid,"variant":var,"round":rnd,
       "author":"independent sub-agent given only the property text and its own worktree",
       "base_commit":base,"summary":summ,"needs_to_manifest":needs,
@@ -46,7 +46,7 @@ for d,pid,rnd,det,summ in rows:
     s=re.sub(r'\s+',' ',summ).replace('|','/')[:170]
     lines.append(f"| {d} | {pid} | {s} | {'**-**' if det=='MISSED' else det} |")
 lines.append('')
-for r in (1,2,3):
+for r in sorted(set(x[2] for x in rows)):
     rr=[x for x in rows if x[2]==r]
     lines.append(f"Round {r}: {sum(1 for x in rr if x[3]!='MISSED')} of {len(rr)} detected.")
 det=sum(1 for r in rows if r[3]!='MISSED')
